@@ -527,14 +527,25 @@ type child struct {
 	out *bufio.Reader
 }
 
-var pool chan *child
+type req struct {
+	hist []string
+	resp chan xstate.Result
+}
 
+var (
+	reqC     = make(chan req, 8192)
+	children []*child
+)
+
+const batchMax = 48
+
+// startPool starts n worker processes; each is served by a goroutine that ships the
+// pending replay requests in batches (one pipe round trip per batch, not per history).
 func startPool(n int) {
 	self := os.Getenv("VERIF_CHECK_BIN")
 	if self == "" {
 		self, _ = os.Executable()
 	}
-	pool = make(chan *child, n)
 	for i := 0; i < n; i++ {
 		cmd := exec.Command(self)
 		cmd.Env = append(os.Environ(), "C37_CHILD=1")
@@ -547,35 +558,63 @@ func startPool(n int) {
 		if err := cmd.Start(); err != nil {
 			ev.Fatalf("worker start: %v", err)
 		}
-		pool <- &child{cmd, bufio.NewWriter(in), bufio.NewReaderSize(out, 1<<16)}
+		c := &child{cmd, bufio.NewWriterSize(in, 1<<16), bufio.NewReaderSize(out, 1<<16)}
+		children = append(children, c)
+		go serve(c)
+	}
+}
+
+func serve(c *child) {
+	for {
+		first, ok := <-reqC
+		if !ok {
+			return
+		}
+		batch := []req{first}
+	fill:
+		for len(batch) < batchMax {
+			select {
+			case rq, ok := <-reqC:
+				if !ok {
+					break fill
+				}
+				batch = append(batch, rq)
+			default:
+				break fill
+			}
+		}
+		for _, rq := range batch {
+			c.in.WriteString(strings.Join(rq.hist, ",") + "\n")
+		}
+		if err := c.in.Flush(); err != nil {
+			ev.Fatalf("worker write: %v", err)
+		}
+		for _, rq := range batch {
+			line, err := c.out.ReadBytes('\n')
+			if err != nil {
+				ev.Fatalf("worker died while replaying %v: %v", rq.hist, err)
+			}
+			var res xstate.Result
+			if err := json.Unmarshal(line, &res); err != nil {
+				ev.Fatalf("worker answer: %v", err)
+			}
+			rq.resp <- res
+		}
 	}
 }
 
 func stopPool() {
-	for len(pool) > 0 {
-		c := <-pool
+	close(reqC)
+	for _, c := range children {
 		c.in.WriteString("quit\n")
 		c.in.Flush()
-		c.cmd.Wait()
 	}
 }
 
 func remoteReplay(hist []string) xstate.Result {
-	c := <-pool
-	defer func() { pool <- c }()
-	c.in.WriteString(strings.Join(hist, ",") + "\n")
-	if err := c.in.Flush(); err != nil {
-		ev.Fatalf("worker write: %v", err)
-	}
-	line, err := c.out.ReadBytes('\n')
-	if err != nil {
-		ev.Fatalf("worker died while replaying %v: %v", hist, err)
-	}
-	var res xstate.Result
-	if err := json.Unmarshal(line, &res); err != nil {
-		ev.Fatalf("worker answer: %v", err)
-	}
-	return res
+	rq := req{hist, make(chan xstate.Result, 1)}
+	reqC <- rq
+	return <-rq.resp
 }
 
 func childLoop() {
@@ -599,7 +638,9 @@ func childLoop() {
 		b, _ := json.Marshal(res)
 		out.Write(b)
 		out.WriteByte('\n')
-		out.Flush()
+		if in.Buffered() == 0 {
+			out.Flush()
+		}
 	}
 }
 
@@ -718,7 +759,7 @@ func main() {
 			Replay:   remoteReplay,
 			Enabled:  ph.enabled,
 			MaxDepth: ph.depth,
-			Workers:  nw,
+			Workers:  nw * batchMax,
 			Stop:     r.TimeUp,
 			OnViolation: func(hist []string, res xstate.Result) {
 				nViol++
